@@ -57,16 +57,18 @@ type world struct {
 	pg    *sim.Pager
 	donor []svcFile
 
-	commits   int
-	posEvents []ltx.Pos         // every position change of the primary (Invalidator.InvalidatePos)
-	lin       map[uint64]uint64 // the primary's current history: txid -> checksum (known points)
-	cks       map[int]uint64    // model image id -> real checksum
-	ackedMax  uint64            // largest HWM any WriteTx returned to the store
-	need      uint64            // lowest service position the primary is guaranteed to extend from
-	restores  int
-	wasOn     bool      // service chain was on the primary's history after the previous step
-	svcBefore []svcFile // service files after the last service-side change
-	idle      struct {
+	commits    int
+	crashed    bool              // a client died in the middle of a transaction (hot journal) at some point
+	hotPending bool              // ... and its journal has not been played back yet: the database file holds uncommitted pages
+	posEvents  []ltx.Pos         // every position change of the primary (Invalidator.InvalidatePos)
+	lin        map[uint64]uint64 // the primary's current history: txid -> checksum (known points)
+	cks        map[int]uint64    // model image id -> real checksum
+	ackedMax   uint64            // largest HWM any WriteTx returned to the store
+	need       uint64            // lowest service position the primary is guaranteed to extend from
+	restores   int
+	wasOn      bool      // service chain was on the primary's history after the previous step
+	svcBefore  []svcFile // service files after the last service-side change
+	idle       struct {
 		p0     ltx.Pos
 		k      int
 		strict bool
@@ -439,6 +441,72 @@ func (w *world) doCommit(id int) bool {
 	return true
 }
 
+// doCrash plays a client that dies in the middle of a write transaction: journal created and synced,
+// pages written, then the process is gone (its handles are closed, which releases its locks; the
+// journal stays). The next client is a new connection.
+func (w *world) doCrash() {
+	pg := w.pg
+	pl := sim.Plan{Kind: "j", Ns: 3, M: []int{1, 2, 3}, Out: "commit", Fin: "DELETE", V: 90}
+	if len(pg.Ref) < 3 {
+		pl.Ns = len(pg.Ref)
+		pl.M = pl.M[:len(pg.Ref)]
+	}
+	core.Beat("real:crash-in-transaction")
+	err := firstErrOf(func() error { return pg.BeginJ(pl) }, pg.JCreate, pg.JSync)
+	for _, q := range pl.M {
+		if err == nil {
+			err = pg.JPage(q)
+		}
+	}
+	ref := pg.Ref
+	w.conn.Close()
+	w.conn = w.node.Connect(dbName, 8)
+	w.pg = sim.NewPager(w.conn, w.cfg.Layout, w.cfg.Pager)
+	w.pg.Ref = ref
+	core.Beat("harness")
+	if err != nil {
+		w.failf("C14.harness", "crash-step-failed", map[string]any{"error": err.Error()})
+		return
+	}
+	w.crashed, w.hotPending = true, true
+	o := w.observe()
+	w.afterStep("crash", o, true)
+}
+
+// doRecover is the recovery LiteFS runs on a role change or restart: an interrupted transaction is rolled back.
+func (w *world) doRecover() {
+	core.Beat("real:Store.Recover")
+	var err error
+	p := core.Try(func() { err = w.node.Store.Recover(context.Background()) })
+	core.Beat("harness")
+	if p != nil || err != nil {
+		w.failf("C14.no-panic", "recover", map[string]any{"panic": fmt.Sprint(p), "error": fmt.Sprint(err)})
+		return
+	}
+	w.hotPending = false
+	o := w.observe()
+	w.afterStep("recover", o, true)
+	// the database file is the image at the primary's position (nothing of the abandoned transaction, and
+	// nothing of a history given up in a restore, comes back)
+	w.evals++
+	if disk, derr := sim.DiskImage(w.node.DBDir(dbName), w.cfg.Layout.PageSize); derr == nil && o.Exists && o.Pos.TXID > 0 {
+		if got := disk.Checksum(w.cfg.Layout.LockPgno()); got != uint64(o.Pos.PostApplyChecksum) {
+			w.failf("C14.restored-image-identical", "recover-after-restore/image-not-at-position", map[string]any{
+				"from_scratch_checksum": fmt.Sprintf("%016x", got), "position": o.Pos.String(), "restores_so_far": w.restores})
+		}
+	}
+	w.resyncPager()
+}
+
+func firstErrOf(fs ...func() error) error {
+	for _, f := range fs {
+		if err := f(); err != nil {
+			return err
+		}
+	}
+	return nil
+}
+
 func (w *world) doTouch() {
 	core.Beat("real:open")
 	err := w.conn.OpenDB(true)
@@ -600,10 +668,14 @@ func (w *world) doSync(pl syncPlan) syncResult {
 		case len(post.Svc) != len(pre.Svc):
 			w.failf("C14.service-not-overwritten", sig+"/files", map[string]any{"before": names(pre.Svc), "after": names(post.Svc)})
 		default:
+			w.hotPending = false // the restore has played the journal back (or left it to be judged after the recovery)
 			if ok, d := w.imagesAgree(post); !ok {
 				w.failf("C14.adopts-service-snapshot", sig+"/image", map[string]any{"difference": d})
 			}
 		}
+	}
+	if r.Restored {
+		w.hotPending = false
 	}
 	if r.Restored && (!post.Exists || post.Pos != post.spos()) && r.Err == nil {
 		w.evals++
@@ -629,7 +701,7 @@ func (w *world) doSync(pl syncPlan) syncResult {
 			w.failf("C14.idle-syncs-converge", sig+"/primary-moved", map[string]any{"syncs": w.idle.n, "primary_at_idle": w.idle.p0.String(),
 				"primary_now": post.Pos.String(), "restored": r.Restored, "calls": r.Calls,
 				"what": "the service was behind and extendable, yet the primary gave up committed transactions"})
-		case post.Exists && post.Pos.TXID > 0:
+		case post.Exists && post.Pos.TXID > 0 && !w.hotPending:
 			if ok, d := w.imagesAgree(post); !ok {
 				w.failf("C14.restored-image-identical", sig+"/image", map[string]any{"difference": d})
 			}
